@@ -44,6 +44,7 @@ type Inventory struct {
 	Approximated []string `json:"approximated"`
 	// sources of nondeterminism that are instrumented but cannot be owned
 	Uncontrolled []string `json:"uncontrolled_sources"`
+	ClockSites   []string `json:"clock_sites"`
 	FilesChanged []string `json:"files_changed"`
 	// select statements made deterministic by pass C
 	SelectSites int `json:"select_sites_controlled"`
@@ -829,9 +830,14 @@ func (r *rewriter) rewriteCall(c *astutil.Cursor, call *ast.CallExpr) {
 		r.changed = true
 	case pkg == "math/rand" || pkg == "math/rand/v2" || pkg == "crypto/rand":
 		inv.Uncontrolled = append(inv.Uncontrolled, r.site(call.Pos(), pkg+"."+fn.Name()))
-	case pkg == "time" && (fn.Name() == "Now" || fn.Name() == "Since"):
-		// inside a bubble this is the fake clock; outside (snapsim) it is a real clock
-		inv.Uncontrolled = append(inv.Uncontrolled, r.site(call.Pos(), "time."+fn.Name()+" (fake clock inside a bubble only)"))
+	case pkg == "time" && (fn.Name() == "Now" || fn.Name() == "Since") && recvNamed(fn) == "":
+		// inside a bubble this is the fake clock; outside (snapsim) the engine can freeze it
+		// or let it race (simrt.SetClock)
+		site := r.site(call.Pos(), "time."+fn.Name())
+		inv.ClockSites = append(inv.ClockSites, site)
+		call.Fun = &ast.SelectorExpr{X: ast.NewIdent("simrt"), Sel: ast.NewIdent(fn.Name())}
+		call.Args = append([]ast.Expr{strLit(site)}, call.Args...)
+		r.changed = true
 	case pkg == "sync" && (fn.Name() == "Wait" || fn.Name() == "Signal" || fn.Name() == "Broadcast") && recvNamed(fn) == "Cond":
 		sel, ok := ast.Unparen(call.Fun).(*ast.SelectorExpr)
 		if !ok {
